@@ -138,10 +138,8 @@ theorem multiphase_is_scaled_mobility (phase fabric : Int) (n : ℕ) (mp : MPara
       = evalRhs phase fabric n { mp with assemblage := [phase], fractions := [1], M := phi * mp.M } env y := by
   have h1 : lookupFraction [phase] [(1:ℝ)] phase = .ok 1 := by simp [lookupFraction, indexOf?]
   simp only [evalRhs, hphi, h1]
-  split_ifs
-  · rfl
-  · rw [derivatives_phiM env.regime phase fabric _ _ _ _ env.spin
-      ⟨mp.p, mp.n, mp.lam, mp.M, phi⟩ ⟨mp.p, mp.n, mp.lam, phi * mp.M, 1⟩ rfl rfl rfl (by simp)]
+  rw [derivatives_phiM env.regime phase fabric _ _ _ _ env.spin
+    ⟨mp.p, mp.n, mp.lam, mp.M, phi⟩ ⟨mp.p, mp.n, mp.lam, phi * mp.M, 1⟩ rfl rfl rfl (by simp)]
 
 /-- **minerals share no state in a bulk update**: when every update succeeds, the i-th resulting
 mineral is the result of updating the i-th mineral alone with its own solver output
